@@ -298,7 +298,7 @@ def run_case(case):
 
 def plan(tier, seed):
     r = core.rng(PROPERTY, seed)
-    n = 500 if tier == 'quick' else 8000
+    n = 800 if tier == 'quick' else 8000
     out = {'rel': [], 'asan': []}
     for i in range(n):
         variant = 'asan' if i % 4 == 3 else 'rel'
